@@ -11,6 +11,8 @@
 (*            swapped, partially mapped, identity Meta) x required pattern *)
 (*   hier   : class HIERARCHIES (extends chains of 2-3 classes, overrides,  *)
 (*            inherited / extended / own Meta, mixin)                       *)
+(*   where  : WHERE the classes are declared (module level, nested in a     *)
+(*            class, local to a function: dotted qualnames)                 *)
 (*   cycle  : the class graph is CYCLIC: two or three mutually recursive   *)
 (*            classes linked through list / dict / direct / Optional       *)
 (*            fields, renamed keys on every class, every class as entry    *)
@@ -33,19 +35,20 @@ CONSTANTS LeafSet,     \* leaf types in the family
           HierDepths,  \* subset of {2, 3}: length of the inheritance chain
           HierMixins,  \* subset of BOOLEAN: a field-less mixin among the bases
           HierTops,    \* subset of {"sub", "base_then_sub", "sub_then_base"}
-          Families     \* subset of {"single", "pair", "cycle", "hier"}
+          Wheres,      \* declaration places: subset of {"module", "nested", "local"}
+          Families     \* subset of {"single", "pair", "cycle", "hier", "where"}
 VARIABLES scen, done
 gvars == <<scen, done, hooks, hist, last>>
 
-EDef(style) == [meta |-> StyleMeta[style], extends |-> "", pyname |-> "",
+EDef(style) == [meta |-> StyleMeta[style], extends |-> "", pyname |-> "", where |-> "module",
                 fields |-> <<Fld(PyName("E", style, 1), WireName("E", style, 1), LeafT("int"), TRUE)>>]
 DDef(style, withE) ==
-  [meta |-> StyleMeta[style], extends |-> "", pyname |-> "",
+  [meta |-> StyleMeta[style], extends |-> "", pyname |-> "", where |-> "module",
    fields |-> <<Fld(PyName("D", style, 1), WireName("D", style, 1), LeafT("int"), TRUE),
                 Fld(PyName("D", style, 2), WireName("D", style, 2), LeafT("str"), FALSE)>>
               \o (IF withE THEN <<Fld(PyName("D", style, 3), WireName("D", style, 3), ClsT("E"), TRUE)>> ELSE <<>>)]
 ADef(style, tys, reqs) ==
-  [meta |-> StyleMeta[style], extends |-> "", pyname |-> "",
+  [meta |-> StyleMeta[style], extends |-> "", pyname |-> "", where |-> "module",
    fields |-> [i \in 1..Len(tys) |-> Fld(PyName("A", style, i), WireName("A", style, i), tys[i], reqs[i])]]
 
 RECURSIVE UsesD(_)
@@ -77,7 +80,7 @@ Pair ==
 \* (never all direct: no finite instance), renamed wire keys on every class, every class of the cycle as entry class
 LinkTy(kind, to) == CASE kind = "list" -> ListT(ClsT(to)) [] kind = "dict" -> DictT(ClsT(to)) [] OTHER -> ClsT(to)
 CDef(role, style, to, kind) ==
-  [meta |-> StyleMeta[style], extends |-> "", pyname |-> "",
+  [meta |-> StyleMeta[style], extends |-> "", pyname |-> "", where |-> "module",
    fields |-> <<Fld(PyName(role, style, 1), WireName(role, style, 1), LeafT("str"), TRUE),
                 Fld(PyName(role, style, 2), WireName(role, style, 2), LinkTy(kind, to), kind # "opt")>>]
 Cycle2 ==
@@ -98,20 +101,20 @@ Cycle3 ==
 \* or a wrapper W holding a base instance and a derived instance in either field order (the order in which the
 \* two classes are first converted).
 OwnStyle(mode) == IF mode = "inherit" THEN "plain" ELSE "camel"
-HDef(sb) == [meta |-> StyleMeta[sb], extends |-> "", pyname |-> "",
+HDef(sb) == [meta |-> StyleMeta[sb], extends |-> "", pyname |-> "", where |-> "module",
              fields |-> <<Fld(PyName("A", sb, 1), WireName("A", sb, 1), LeafT("str"), TRUE),
                           Fld(PyName("A", sb, 2), WireName("A", sb, 2), LeafT("int"), FALSE)>>]
 HsDef(sb, mode, ov, mx) ==
-  [meta |-> mode, extends |-> "H", pyname |-> "", mixin |-> mx,
+  [meta |-> mode, extends |-> "H", pyname |-> "", where |-> "module", mixin |-> mx,
    fields |-> <<Fld(PyName("D", OwnStyle(mode), 1), WireName("D", OwnStyle(mode), 1), LeafT("date"), FALSE)>>
               \o (IF ov = "type" THEN <<Fld(PyName("A", sb, 2), WireName("A", sb, 2), LeafT("str"), FALSE)>>
                   ELSE IF ov = "default" THEN <<Fld(PyName("A", sb, 1), WireName("A", sb, 1), LeafT("str"), FALSE)>>
                   ELSE <<>>)]
 HssDef(mode) ==
-  [meta |-> mode, extends |-> "Hs", pyname |-> "", mixin |-> FALSE,
+  [meta |-> mode, extends |-> "Hs", pyname |-> "", where |-> "module", mixin |-> FALSE,
    fields |-> <<Fld(PyName("E", OwnStyle(mode), 1), WireName("E", OwnStyle(mode), 1), LeafT("bool"), FALSE)>>]
 WDef(first, second) ==
-  [meta |-> "none", extends |-> "", pyname |-> "", fields |-> <<Fld("first", "first", ClsT(first), TRUE), Fld("second", "second", ClsT(second), TRUE)>>]
+  [meta |-> "none", extends |-> "", pyname |-> "", where |-> "module", fields |-> <<Fld("first", "first", ClsT(first), TRUE), Fld("second", "second", ClsT(second), TRUE)>>]
 Hier ==
   {[classes |-> [n \in {"H", "Hs"} \cup (IF d = 3 THEN {"Hss"} ELSE {}) \cup (IF tp = "sub" THEN {} ELSE {"W"}) |->
                    IF n = "H" THEN HDef(sb) ELSE IF n = "Hs" THEN HsDef(sb, mode, ov, mx) ELSE IF n = "Hss" THEN HssDef(mode)
@@ -120,7 +123,18 @@ Hier ==
      top |-> ClsT(IF tp = "sub" THEN (IF d = 3 THEN "Hss" ELSE "Hs") ELSE "W"), fam |-> "hier"] :
      sb \in HierStyles, mode \in HierMetas, ov \in HierOverrides, mx \in HierMixins, d \in HierDepths, tp \in HierTops}
 
-Scenarios == (IF "single" \in Families THEN Single ELSE {}) \cup (IF "pair" \in Families THEN Pair ELSE {})
+\* where: the declaration place of the top class and of the nested class (qualnames with dots / <locals>), over
+\* field types that put the nested class at depth (direct, list item, dict value, optional) and a leaf
+At(c, w) == [c EXCEPT !.where = w]
+WhereTypes == {ClsT("D"), ListT(ClsT("D")), DictT(ClsT("D")), OptT(ClsT("D")), OptT(ListT(ClsT("D"))), LeafT("int"), ListT(LeafT("date"))}
+Where ==
+  {[classes |-> [n \in {"A"} \cup (IF UsesD(ty) THEN {"D", "E"} ELSE {}) |->
+                   IF n = "A" THEN At(ADef("camel", <<ty>>, <<rq>>), wa)
+                   ELSE IF n = "D" THEN At(DDef("kw", TRUE), wd) ELSE At(EDef("camel"), wd)],
+     top |-> ClsT("A"), fam |-> "where"] :
+     ty \in WhereTypes, rq \in BOOLEAN, wa \in Wheres, wd \in Wheres}
+
+Scenarios == (IF "where" \in Families THEN Where ELSE {}) \cup (IF "single" \in Families THEN Single ELSE {}) \cup (IF "pair" \in Families THEN Pair ELSE {})
              \cup (IF "cycle" \in Families THEN Cycle2 \cup Cycle3 ELSE {})
              \cup (IF "hier" \in Families THEN Hier ELSE {})
 
@@ -143,7 +157,7 @@ Emit ==
   /\ ~done
   /\ done' = TRUE
   /\ UNCHANGED <<scen, hooks, hist, last>>
-  /\ PrintT("SCEN " \o ToJson([classes |-> WithBuild(cl), top |-> Top, fam |-> scen.fam, depth |-> TyDepth(fcl, Top), cyclic |-> CyclicTable(fcl),
+  /\ PrintT("SCEN " \o ToJson([classes |-> WithBuild(cl), qualnames |-> [n \in DOMAIN cl |-> QualName(cl, n)], top |-> Top, fam |-> scen.fam, depth |-> TyDepth(fcl, Top), cyclic |-> CyclicTable(fcl),
                                inst |-> SetToSeq({[j |-> j, v |-> Decode(fcl, Top, j)] : j \in Instances(fcl, Top)}),
                                bad |-> SetToSeq(Mutants(fcl, Top))]))
 Spec == Init /\ [][Emit]_gvars
